@@ -16,7 +16,7 @@ CLAIMED = {
         note="Partial: the end-to-end theorems cover MaximizeCAI (both strands) without start-codon policy; the other variants are differential; named codon tables are the sandbox shim's; log/ratio floats compared with 1e-9 tolerance.",
         technique="Coq proof (restriction meaning for EnforceTranslation; per-codon decomposition of CAI; induction over the reported locations of optimize_objective on top of the exact optimality of the local exhaustive search) + vm_compute correspondence of the classes + end-to-end oracle on the implementation", design="6/C07"),
     "C04": dict(
-        text="Theorems (Coq): the space built by from_optimization_problem's merge procedure is EXACT - a sequence of the right length is a member iff it satisfies every restriction choice (merge_with keeps exactly the variants compatible with ALL overlapping choices, extract_varying_region is exact), the space is a well-formed partition, 'unsolvable' (a choice left without variant) iff no sequence satisfies all restrictions, constrain_sequence moves the initial sequence into the space. The per-class meaning of restrict_nucleotides (AvoidChanges, EnforceTranslation both strands/all start-codon policies, EnforceSequence IUPAC, EnforceChoice, EnforceChanges, AvoidRareCodons) is modelled and tied by correspondence, and decided by brute force over all 4^L sequences (membership vs evaluate().passes) - that half is not a Coq theorem.",
+        text="Theorems (Coq): the space built by from_optimization_problem's merge procedure is EXACT - a sequence of the right length is a member iff it satisfies every restriction choice (merge_with keeps exactly the variants compatible with ALL overlapping choices, extract_varying_region is exact), the space is a well-formed partition, 'unsolvable' (a choice left without variant) iff no sequence satisfies all restrictions, constrain_sequence moves the initial sequence into the space. The per-class meaning is a theorem too: for AvoidChanges without edit allowance, EnforceChanges at 100 %, EnforceSequence (IUPAC, both strands), EnforceChoice and AvoidRareCodons the restriction choices hold on a sequence iff the specification's own evaluation passes on it (C04_restrictions_hold_iff_the_specification_passes; hypothesis: indices lie inside the location, refuted without it), and for EnforceTranslation iff the region encodes the protein / obeys the start-codon policy (C07). Also decided by brute force over all 4^L sequences (membership vs evaluate().passes) on the implementation.",
         note="Trusted: Coq kernel; hand model of MutationSpace/MutationChoice tied by correspondence; start-codon policy is read as part of the documented predicate of EnforceTranslation (the space is stricter than evaluate(), DESIGN section 7).",
         technique="Coq proof (fold invariant: partition index representing the intersection so far) + vm_compute correspondence + brute-force oracle", design="6/C04"),
     "C10": dict(
